@@ -117,7 +117,7 @@ func canonicalPrompt(pattern string, notContains []string, avoid []*regexp.Regex
 	best := ""
 	for alt := 0; alt < 4; alt++ {
 		for _, q := range []bool{false, true} {
-			for cls := 0; cls < 3; cls++ {
+			for cls := 0; cls < 48; cls++ {
 				for _, n := range []int{3, 1, 2} {
 					s, err := synthesise(pattern, synthOpts{QuestOn: q, AltIdx: alt, ClassIx: cls, StarN: n})
 					if err != nil || s == "" || !re.MatchString(s) {
@@ -139,6 +139,19 @@ func canonicalPrompt(pattern string, notContains []string, avoid []*regexp.Regex
 					for _, a := range avoid {
 						if a.MatchString(s) {
 							clash = true
+						}
+					}
+					// no proper prefix of the prompt may already look like a prompt (of this or
+					// any other level): a read boundary there would show the driver a different,
+					// possibly ambiguous, prompt
+					for i := 1; i < len(s) && !clash; i++ {
+						if re.MatchString(s[:i]) {
+							clash = true
+						}
+						for _, a := range avoid {
+							if a.MatchString(s[:i]) {
+								clash = true
+							}
 						}
 					}
 					if !clash {
